@@ -473,6 +473,36 @@ Definition exec (cf : config) (s : shared) (l : tlocal) (p : pc) (x : N)
   | _ => (s, l, [], NFault FBadChoice)
   end.
 
+(** One attempt of [rcu] with the guard [(p, d)] on the current value: run the closure (a
+    scheduling point only if it allocates), then compare_and_swap. A panicking closure unwinds
+    through [rcu]: the only live local is [cur], whose drop returns the debt. *)
+Definition rcu_attempt (cf : config) (l : tlocal) (c : N) (m : rcu_mode) (p : N) (d : option slot) : tlocal * next :=
+  match m with
+  | RcuNew => (l, NGoto (RAlloc c m p d))
+  | RcuPanicAt k =>
+      if k =? 0 then
+        match guard_drop_frames p d with
+        | [] => (l, NRet RPanic)
+        | fs => (l, NPush fs WRcuPanic)
+        end
+      else (l, NGoto (RAlloc c m p d))
+  | RcuNull =>
+      match enter_load cf l c with
+      | inl (l', frames) => (l', NPush (frames ++ [WCasLoad c p 0]) (WRcuCas c m p d))
+      | inr ps => (l, NPanic ps)
+      end
+  | RcuSame =>
+      if p =? 0 then
+        match enter_load cf l c with
+        | inl (l', frames) => (l', NPush (frames ++ [WCasLoad c p 0]) (WRcuCas c m p d))
+        | inr ps => (l, NPanic ps)
+        end
+      else (l, NGoto (RInc c m p d))
+  end.
+
+Definition rcu_next_mode (m : rcu_mode) : rcu_mode :=
+  match m with RcuPanicAt k => RcuPanicAt (k - 1) | _ => m end.
+
 (** ** Resuming a waiting frame with the value its callee returned (thread-local only). *)
 Definition resume (cf : config) (l : tlocal) (w : pc) (v : retval) : tlocal * next :=
   match w, v with
@@ -502,22 +532,7 @@ Definition resume (cf : config) (l : tlocal) (w : pc) (v : retval) : tlocal * ne
       | inl (l', frames) => (l', NPush frames (WCasLoad c cur new))
       | inr ps => (l, NPanic ps)
       end
-  | WRcuLoad c m, RGuard p d =>
-      match m with
-      | RcuNew => (l, NGoto (RAlloc c m p d))
-      | RcuNull =>
-          match enter_load cf l c with
-          | inl (l', frames) => (l', NPush (frames ++ [WCasLoad c p 0]) (WRcuCas c m p d))
-          | inr ps => (l, NPanic ps)
-          end
-      | RcuSame =>
-          if p =? 0 then
-            match enter_load cf l c with
-            | inl (l', frames) => (l', NPush (frames ++ [WCasLoad c p 0]) (WRcuCas c m p d))
-            | inr ps => (l, NPanic ps)
-            end
-          else (l, NGoto (RInc c m p d))
-      end
+  | WRcuLoad c m, RGuard p d => rcu_attempt cf l c m p d
   | WRcuCas c m p d, RGuard q dq =>
       if p =? q then
         match guard_into_frames q dq with
@@ -530,24 +545,8 @@ Definition resume (cf : config) (l : tlocal) (w : pc) (v : retval) : tlocal * ne
         end
       else
         match guard_drop_frames p d with
-        | [] =>
-            (* cur = prev; next round *)
-            match m with
-            | RcuNew => (l, NGoto (RAlloc c m q dq))
-            | RcuNull =>
-                match enter_load cf l c with
-                | inl (l', frames) => (l', NPush (frames ++ [WCasLoad c q 0]) (WRcuCas c m q dq))
-                | inr ps => (l, NPanic ps)
-                end
-            | RcuSame =>
-                if q =? 0 then
-                  match enter_load cf l c with
-                  | inl (l', frames) => (l', NPush (frames ++ [WCasLoad c q 0]) (WRcuCas c m q dq))
-                  | inr ps => (l, NPanic ps)
-                  end
-                else (l, NGoto (RInc c m q dq))
-            end
-        | fs => (l, NPush fs (WRcuNext c m q dq))
+        | [] => rcu_attempt cf l c (rcu_next_mode m) q dq   (* cur = prev; next round *)
+        | fs => (l, NPush fs (WRcuNext c (rcu_next_mode m) q dq))
         end
   | WRcuInto p d, ROwned q =>
       match guard_drop_frames p d with
@@ -555,22 +554,8 @@ Definition resume (cf : config) (l : tlocal) (w : pc) (v : retval) : tlocal * ne
       | fs => (l, NPush fs (WRcuRet q))
       end
   | WRcuRet q, _ => (l, NRet (ROwned q))
-  | WRcuNext c m q dq, _ =>
-      match m with
-      | RcuNew => (l, NGoto (RAlloc c m q dq))
-      | RcuNull =>
-          match enter_load cf l c with
-          | inl (l', frames) => (l', NPush (frames ++ [WCasLoad c q 0]) (WRcuCas c m q dq))
-          | inr ps => (l, NPanic ps)
-          end
-      | RcuSame =>
-          if q =? 0 then
-            match enter_load cf l c with
-            | inl (l', frames) => (l', NPush (frames ++ [WCasLoad c q 0]) (WRcuCas c m q dq))
-            | inr ps => (l, NPanic ps)
-            end
-          else (l, NGoto (RInc c m q dq))
-      end
+  | WRcuNext c m q dq, _ => rcu_attempt cf l c m q dq
+  | WRcuPanic, _ => (l, NRet RPanic)
   | WInto p, _ => (l, NRet (ROwned p))
   | WDropStore p, _ => (l, dec_then p RUnit)
   | WCacheReload c a k, ROwned a' =>
